@@ -35,7 +35,7 @@ def exportRecs (vc : ValueCfg) (rs : List Rec) : Out Bytes := Out.concat (rs.map
 def exportV9Body (vc : ValueCfg) : V9Body → Out Bytes
   | .templates ts pad => .ok (ts.flatMap exportV9Template ++ pad)
   | .optTemplates ts pad => .ok (ts.flatMap exportV9OptTemplate ++ pad)
-  | .data recs _ => exportRecs vc recs                     -- the padding is NOT written
+  | .data recs pad => (exportRecs vc recs).append (.ok pad)
   | .optData ss os pad => .ok (ss.flatMap (·.2) ++ os.flatMap (·.2) ++ pad)
 
 def exportV9Set (vc : ValueCfg) (s : V9Set) : Out Bytes :=
